@@ -421,6 +421,78 @@ def imm_scenarios(chk, tier):
     return scen
 
 
+def _validate_conc(chk, tp, mp, tag, st, nchunks=6, max_rejects=3):
+    """Chunks of scenarios against the strict (implementation-shaped) configuration, in parallel. A rejected
+    scenario (every scenario starts with Reset, so the rest of its chunk is independent of it) is re-judged alone
+    with the property-layer configuration: rejected there = VIOLATION, accepted there = MODEL-DRIFT, and the rest
+    of that chunk is then validated against the property layer only. At most max_rejects violations are examined
+    per chunk (a broken tree must not cost hundreds of TLC runs); what is left is counted as unexamined."""
+    from concurrent.futures import ThreadPoolExecutor
+    metas = vlib.read_ndjson(mp)
+    with open(tp) as f:
+        lines = f.readlines()
+    per = max(1, (len(metas) + nchunks - 1) // nchunks)
+    chunks = [metas[i:i + per] for i in range(0, len(metas), per)]
+
+    def write(ms, path):
+        with open(path, "w") as f:
+            for m in ms:
+                f.writelines(vlib.lines_for(lines, m))
+
+    def work(arg):
+        ci, ms = arg
+        cfg, acc, viol, drift, left = "ImmTrace.cfg", 0, [], [], 0
+        while ms:
+            path = f"{tp}.c{ci}"
+            write(ms, path)
+            v = vlib.validate_trace(SSPEC, "ImmTrace", cfg, path, timeout=600)
+            if v.accepted:
+                acc += len(ms)
+                break
+            pos, hit = 0, len(ms) - 1
+            for k, m in enumerate(ms):
+                if pos + m["events"] >= (v.line or 1):
+                    hit = k
+                    break
+                pos += m["events"]
+            m = ms[hit]
+            acc += hit
+            ms = ms[hit + 1:]
+            one = f"{tp}.r{m['id']}"
+            write([m], one)
+            absv = vlib.validate_trace(SSPEC, "ImmTrace", "ImmTraceAbs.cfg", one, timeout=300)
+            if absv.accepted:
+                drift.append((m, v))
+                acc += 1
+                cfg = "ImmTraceAbs.cfg"
+            else:
+                viol.append((m, absv, one))
+                if len(viol) >= max_rejects:
+                    left = len(ms)
+                    break
+        return acc, viol, drift, left
+
+    accepted = 0
+    with ThreadPoolExecutor(max_workers=nchunks) as ex:
+        for acc, viol, drift, left in ex.map(work, list(enumerate(chunks))):
+            accepted += acc
+            st["unexamined_after_rejections"] = st.get("unexamined_after_rejections", 0) + left
+            for m, v in drift:
+                st["drift"] += 1
+                if len(chk.drift) < 20:
+                    chk.drift.append({"kind": "imm-conc", "scenario": m["id"], "what": "accepted by the property layer only (flush after a failed "
+                                      "next skipped, an append went through after a panic, or a flush outside any append)", "event": v.event})
+            for m, absv, one in viol:
+                with open(one) as f:
+                    tr = [json.loads(l) for l in f]
+                what = (f"FlushImmediately ({m['scenario']['sink']}), {m['scenario']['threads']} concurrent appenders, scenario {m['id']}: "
+                        + (f"invariant {absv.invariant} violated" if absv.invariant else f"event {json.dumps(absv.event)} (line {absv.line}) is not enabled")
+                        + f"; model state <<pc, lock holder, poisoned, stream calls so far>> = {absv.state}")
+                ev = absv.event if isinstance(absv.event, dict) else {}
+                chk.violation(what, {"kind": "imm-conc", "scenario": m["scenario"], "trace": tr}, key=f"X02:imm-conc:{ev.get('ev', absv.invariant)}")
+    return accepted
+
+
 def run_imm_conc(chk, tier, scen=None, tag="immconc"):
     if scen is None:
         scen = imm_scenarios(chk, tier)
@@ -430,26 +502,7 @@ def run_imm_conc(chk, tier, scen=None, tag="immconc"):
     st = chk.extra.setdefault("imm_conc", {"scenarios": 0, "events": 0, "handoffs_by_other_thread_between": 0, "panic_scenarios": 0,
                                            "appends_refused_after_poison": 0, "drift": 0})
 
-    def on_reject(meta, v, lines):
-        one = os.path.join(chk.dir, f"{tag}-rej{meta['id']}.ndjson")
-        with open(one, "w") as f:
-            f.writelines(lines)
-        absv = vlib.validate_trace(SSPEC, "ImmTrace", "ImmTraceAbs.cfg", one, timeout=300)
-        tr = [json.loads(l) for l in lines]
-        if absv.accepted:
-            st["drift"] += 1
-            if len(chk.drift) < 20:
-                chk.drift.append({"kind": "imm-conc", "scenario": meta["id"], "what": "accepted by the property layer only (flush after a failed "
-                                  "next skipped, or an append went through after a panic)", "event": v.event, "line": v.rel_line})
-            chk.traces += 1
-            return
-        what = (f"FlushImmediately ({meta['scenario']['sink']}), {meta['scenario']['threads']} concurrent appenders, scenario {meta['id']}: "
-                + (f"invariant {absv.invariant} violated" if absv.invariant else f"event {json.dumps(absv.event)} (line {absv.line}) is not enabled")
-                + f"; model state <<pc, lock holder, poisoned, stream calls so far>> = {absv.state}")
-        ev = absv.event if isinstance(absv.event, dict) else {}
-        chk.violation(what, {"kind": "imm-conc", "scenario": meta["scenario"], "trace": tr}, key=f"X02:imm-conc:{ev.get('ev', absv.invariant)}")
-
-    acc = vlib.validate_scenarios(SSPEC, "ImmTrace", "ImmTrace.cfg", tp, mp, on_reject, chunk=30, jobs=6, stats=chk.extra)
+    acc = _validate_conc(chk, tp, mp, tag, st)
     chk.traces += acc
     metas = vlib.read_ndjson(mp)
     with open(tp) as f:
@@ -474,7 +527,7 @@ def run_imm_conc(chk, tier, scen=None, tag="immconc"):
         chk.evaluations += 1
         s = m["scenario"]
         chk.nontrivial.add("immconc:" + json.dumps([s["sink"], s["threads"], s["per"], s["script"], s["spin_ns"]], sort_keys=True))
-    if st["handoffs_by_other_thread_between"] < st["scenarios"] // 4:
+    if tag == "immconc" and st["handoffs_by_other_thread_between"] < st["scenarios"] // 4:
         raise vlib.ToolError(f"imm conc: too little contention observed ({st['handoffs_by_other_thread_between']} overlapped appends in "
                              f"{st['scenarios']} scenarios): the traces do not exercise the lock")
 
@@ -672,24 +725,48 @@ def run(prop, tier):
         "test sinks: TestEntry is an image of the writer calls (last timestamp / last string / last metric per name); for entries without repeated names the image is one-to-one",
     ]
     vlib.cargo_build(["lam", "imm"])
-    # the rate-limit recordings are mostly sleeping (seconds of wall clock): they run beside everything else
+    # the rate-limit recordings are mostly sleeping (seconds of wall clock), the exhaustive model runs do not depend
+    # on the code: both run beside the replays
     from concurrent.futures import ThreadPoolExecutor
-    pool = ThreadPoolExecutor(max_workers=1)
-    rl_future = pool.submit(rl_record, chk, tier, rl_scenarios(chk, tier))
-    steps = [("lambda models", lam_models), ("lambda replay", run_lambda),
-             ("imm models", imm_models), ("imm sequential", run_imm_seq), ("imm concurrent", run_imm_conc),
-             ("test sinks", run_tsink), ("rate limit models", rl_models),
-             ("rate limit traces", lambda c, t: rl_validate(c, rl_future.result()))]
     only = os.environ.get("VERIF_X02_ONLY")      # self-test only: run the steps of one subject (lambda | imm | test | rate)
-    for name, step in steps:
-        if only and not name.startswith(only):
-            continue
-        if vlib.SKIP_MC and name.endswith("models"):
-            continue
+    pool = ThreadPoolExecutor(max_workers=3)
+    rl_future = pool.submit(rl_record, chk, tier, rl_scenarios(chk, tier) if not only or only == "rate" else [])
+
+    def timed(name, step):
         t0 = time.time()
         step(chk, tier)
         log(f"[{prop}] {name}: {time.time() - t0:.1f}s")
-    pool.shutdown()
+
+    class ModelSide:
+        """What the model steps need of the Check, with add_model deferred to the main thread."""
+        def __init__(self):
+            self.dir, self.seed, self.extra, self.models = chk.dir, chk.seed, {}, []
+
+        def add_model(self, name, r):
+            self.models.append((name, r))
+
+    side = ModelSide()
+
+    def models():
+        for name, step in (("lambda models", lam_models), ("imm models", imm_models), ("rate limit models", rl_models)):
+            if not vlib.SKIP_MC and (not only or name.startswith(only)):
+                t0 = time.time()
+                step(side, tier)
+                log(f"[{prop}] {name}: {time.time() - t0:.1f}s")
+
+    model_future = pool.submit(models)
+    steps = [("lambda replay", run_lambda), ("imm sequential", run_imm_seq), ("imm concurrent", run_imm_conc),
+             ("test sinks", run_tsink), ("rate limit traces", lambda c, t: rl_validate(c, rl_future.result()))]
+    try:
+        for name, step in steps:
+            if not only or name.startswith(only):
+                timed(name, step)
+        model_future.result()
+        for name, r in side.models:
+            chk.add_model(name, r)
+        chk.extra.update(side.extra)
+    finally:
+        pool.shutdown()
     return chk.finish()
 
 
@@ -717,18 +794,5 @@ def replay(prop, path):
 
 
 def run_imm_conc_replay(chk, rp):
-    scen = [dict(rp["scenario"], id=i + 1) for i in range(40)]
-    sp, tp, mp = (os.path.join(chk.dir, f"replay-{x}.ndjson") for x in ("scen", "trace", "meta"))
-    vlib.write_ndjson(sp, scen)
-    vlib.run_bin("imm", ["conc", "--scenarios", sp, "--out", tp, "--meta", mp], timeout=600)
-
-    def on_reject(meta, v, lines):
-        one = os.path.join(chk.dir, f"replay-rej{meta['id']}.ndjson")
-        with open(one, "w") as f:
-            f.writelines(lines)
-        absv = vlib.validate_trace(SSPEC, "ImmTrace", "ImmTraceAbs.cfg", one, timeout=300)
-        if not absv.accepted:
-            chk.violation(f"scenario re-run {meta['id']}: event {json.dumps(absv.event)} not enabled / invariant {absv.invariant}",
-                          {"kind": "imm-conc", "scenario": meta["scenario"], "trace": [json.loads(l) for l in lines]}, key="X02:imm-conc")
-
-    vlib.validate_scenarios(SSPEC, "ImmTrace", "ImmTrace.cfg", tp, mp, on_reject, chunk=40, jobs=2)
+    """A concurrent scenario is a schedule-dependent observation: the scenario is re-run 40 times."""
+    run_imm_conc(chk, "quick", scen=[dict(rp["scenario"], id=i + 1) for i in range(40)], tag="replay")
